@@ -12,6 +12,7 @@ package c12
 import (
 	"encoding/json"
 	"fmt"
+	"os"
 	"sort"
 	"strings"
 	"sync"
@@ -306,6 +307,9 @@ func runGen(r *core.Run, sheets []genInput, jvms, workers int) map[string]*Case 
 			b, _ := json.Marshal(s)
 			sb.Write(b)
 			sb.WriteByte('\n')
+		}
+		if d := os.Getenv("C12_DUMP"); d != "" { // development only
+			os.WriteFile(d, []byte(sb.String()), 0644)
 		}
 		res, err := tlcrun.Run(r, tlcrun.Options{Module: "CssGen", Config: "CssGen.cfg", Workers: workers, TimeoutSec: r.Pick(600, 1500), HeapGB: 6,
 			Files: map[string]string{"cssgen_in.ndjson": sb.String()},
